@@ -40,7 +40,7 @@ def run(chk):
     b = core.standard_build(chk)
     import kernpy as kp
     model = core.Model() if b.modelrun_ok else None
-    full = chk.tier == 'thorough' or bool(b.drift) or not b.proof_ok
+    full = chk.tier == 'thorough' or bool(b.drift) or not b.proof_ok or not b.modelrun_ok
     octs = list(range(0, 9)) + ([-40, -7, -1, 9, 15, 33] if full else [-3, 12]) + [chk.rng.randint(-60, 60)]
     alts = list(range(-3, 4)) if full else [-2, -1, 0, 1, 2, 3]
     chk.exhaustive = True
